@@ -158,8 +158,16 @@ def check_candidate_window(rep: Report, rule: str) -> None:
                 why = "index guarded by _check_index() (between from_index and to_index)"
             elif qual == "FeatureBasedAcquiredLotCandidates.set_to_index":
                 loop = next((a for a in ancestors(node) if isinstance(a, ast.For)), None)
-                ok = loop is not None and unparse(loop.iter) == "range(self.to_index, to_index + 1)" and isinstance(loop.target, ast.Name) and idx == loop.target.id
-                why = "index ranges over old to_index .. new to_index inclusive"
+                it = loop.iter if loop is not None else None
+                ok = (
+                    isinstance(it, ast.Call)
+                    and unparse(it.func) == "range"
+                    and len(it.args) == 2
+                    and unparse(it.args[1]) == "to_index + 1"
+                    and isinstance(loop.target, ast.Name)
+                    and idx == loop.target.id
+                )
+                why = "index ranges up to the new to_index inclusive (range(<start>, to_index + 1))"
             else:
                 ok, why = False, "unreviewed access"
             rep.check(ok, rule, AAM, qual, f"{qual}: lot list read at [{idx}] is bounded by to_index", f"{qual} reads the shared lot list at [{idx}] ({why} not established): candidate selection may see lots after the disposal", loc(node))
